@@ -10,6 +10,9 @@ Definition bytes := string.
 Definition bs (l : list N) : string :=
   string_of_list_ascii (map ascii_of_N l).
 
+(* same from [nat] byte codes: needs no N scope in the generated case files *)
+Definition bsn (l : list nat) : string := bs (map N.of_nat l).
+
 Definition codes (s : string) : list N := map N_of_ascii (list_ascii_of_string s).
 
 (* bytes.Compare: byte-wise lexicographic, a proper prefix is smaller *)
